@@ -1,0 +1,1 @@
+//! Verification doors: metrics (cfg(trusttunnel_verif) only)
